@@ -67,12 +67,12 @@ def _callee(ctx: Ctx, f: Func, call: ast.Call) -> Optional[Func]:
     return None
 
 
-def _instantiate(ctx: Ctx, f: Func, call: ast.Call, want_value: bool) -> Optional[List[ast.stmt]]:
+def _instantiate(ctx: Ctx, f: Func, call: ast.Call, want_value: bool, allow_yield: bool = False) -> Optional[List[ast.stmt]]:
     """Body of the callee with its parameters replaced by the call's arguments, or None."""
     m = _callee(ctx, f, call)
     if m is None or m is f or m.node is f.node:
         return None
-    if any(isinstance(x, (ast.Yield, ast.YieldFrom, ast.Await, ast.Global, ast.Nonlocal)) for x in ast.walk(m.node)):
+    if any(isinstance(x, (ast.YieldFrom, ast.Await, ast.Global, ast.Nonlocal)) or (isinstance(x, ast.Yield) and not allow_yield) for x in ast.walk(m.node)):
         return None
     bound = m.cls is not None and m.parent is None
     binding = bind_call(m, call, bound=bound)
@@ -387,6 +387,86 @@ def inline_value_calls(ctx: Ctx, f: Func, fn: ast.FunctionDef) -> bool:
         return out
 
     fn.body = block(fn.body)
+    return changed
+
+
+def inline_drained_generators(ctx: Ctx, f: Func, fn: ast.FunctionDef) -> bool:
+    """`x = list(self._gen(a))` / `return list(self._gen(a))` with `_gen` a private generator that only yields as a
+    statement and has no `return`: the generator is drained on the spot, so it is the loop it contains with every
+    `yield e` appending to a fresh list - `acc = []; <body, yield e -> acc.append(e)>; x = acc`."""
+    changed = False
+    counter = [0]
+
+    def gen_of(c: ast.AST) -> Optional[ast.Call]:
+        if not (isinstance(c, ast.Call) and isinstance(c.func, ast.Name) and c.func.id in ("list",) and len(c.args) == 1 and not c.keywords and isinstance(c.args[0], ast.Call)):
+            return None
+        inner = c.args[0]
+        name = inner.func.attr if isinstance(inner.func, ast.Attribute) else (inner.func.id if isinstance(inner.func, ast.Name) else "")
+        if not (name.startswith("_") and not name.startswith("__")):
+            return None
+        m = _callee(ctx, f, inner)
+        if m is None or m is f or m.node is f.node:
+            return None
+        nodes = [x for x in ast.walk(m.node)]
+        if not any(isinstance(x, ast.Yield) for x in nodes) or any(isinstance(x, (ast.Return, ast.YieldFrom)) for x in nodes):
+            return None
+        if any(isinstance(x, (ast.FunctionDef, ast.Lambda)) and x is not m.node for x in nodes):
+            return None
+        # every yield is a statement of its own
+        stmts_y = {id(x.value) for x in nodes if isinstance(x, ast.Expr) and isinstance(x.value, ast.Yield)}
+        if any(isinstance(x, ast.Yield) and id(x) not in stmts_y for x in nodes):
+            return None
+        return inner
+
+    def block(stmts: List[ast.stmt]) -> List[ast.stmt]:
+        nonlocal changed
+        out: List[ast.stmt] = []
+        for st in stmts:
+            if isinstance(st, (ast.FunctionDef, ast.AsyncFunctionDef, ast.ClassDef)):
+                out.append(st)
+                continue
+            for fld in ("body", "orelse", "finalbody"):
+                v = getattr(st, fld, None)
+                if isinstance(v, list) and v and isinstance(v[0], ast.stmt):
+                    setattr(st, fld, block(v))
+            if isinstance(st, ast.Try):
+                for h in st.handlers:
+                    h.body = block(h.body)
+            val = getattr(st, "value", None) if isinstance(st, (ast.Assign, ast.AnnAssign, ast.Return)) else None
+            inner = gen_of(val) if val is not None else None
+            if inner is not None:
+                body = _instantiate(ctx, f, inner, want_value=True, allow_yield=True)
+                if body is not None:
+                    counter[0] += 1
+                    acc = f"drained__{counter[0]}"
+
+                    class _Y(ast.NodeTransformer):
+                        def visit_Expr(self, node: ast.Expr):
+                            if isinstance(node.value, ast.Yield):
+                                arg = node.value.value if node.value.value is not None else ast.Constant(value=None)
+                                call = ast.Call(func=ast.Attribute(value=ast.Name(id=acc, ctx=ast.Load()), attr="append", ctx=ast.Load()), args=[arg], keywords=[])
+                                return ast.copy_location(ast.Expr(value=call), node)
+                            return node
+
+                    body = [_Y().visit(b) for b in body]
+                    pre = [ast.Assign(targets=[ast.Name(id=acc, ctx=ast.Store())], value=ast.List(elts=[], ctx=ast.Load()))] + body
+                    for x in pre:
+                        for y in ast.walk(x):
+                            y.lineno = getattr(y, "lineno", None) or st.lineno
+                            if not hasattr(y, "col_offset"):
+                                y.col_offset = 0
+                    out.extend(pre)
+                    new = clone(st)
+                    new.value = ast.copy_location(ast.Name(id=acc, ctx=ast.Load()), val)
+                    out.append(new)
+                    changed = True
+                    continue
+            out.append(st)
+        return out
+
+    fn.body = block(fn.body)
+    if changed:
+        ast.fix_missing_locations(fn)
     return changed
 
 
@@ -910,6 +990,14 @@ def split_conditional_assignments(fn: ast.FunctionDef) -> bool:
                 out.append(ast.copy_location(ast.If(test=val.test, body=[a], orelse=[b]), st))
                 changed = True
                 continue
+            # `d[A if C else B] = v` (v a plain name or constant: nothing is evaluated before the key is chosen) -> two stores
+            if isinstance(st, ast.Assign) and len(st.targets) == 1 and isinstance(st.targets[0], ast.Subscript) and isinstance(st.targets[0].slice, ast.IfExp) and isinstance(st.targets[0].value, ast.Name) and isinstance(st.value, (ast.Name, ast.Constant)):
+                ie = st.targets[0].slice
+                a, b = clone(st), clone(st)
+                a.targets[0].slice, b.targets[0].slice = clone(ie.body), clone(ie.orelse)
+                out.append(ast.copy_location(ast.If(test=ie.test, body=[a], orelse=[b]), st))
+                changed = True
+                continue
             # `(A if C else B).append(x)` -> `if C: A.append(x)` / `else: B.append(x)`: the receiver is chosen first
             if isinstance(st, ast.Expr) and isinstance(st.value, ast.Call) and isinstance(st.value.func, ast.Attribute) and isinstance(st.value.func.value, ast.IfExp):
                 ie = st.value.func.value
@@ -1157,6 +1245,8 @@ def normalised(ctx: Ctx, f: Func, steps: str = "delegation,tailcalls,calls,unrol
             round_changed |= inline_call_statements(ctx, f, fn)
         if "valuecalls" in want:
             round_changed |= inline_value_calls(ctx, f, fn)
+        if "gencalls" in want:
+            round_changed |= inline_drained_generators(ctx, f, fn)
         if "multiret" in want:
             round_changed |= inline_multi_return_calls(ctx, f, fn)
             round_changed |= split_tuple_assignments(fn)
